@@ -28,7 +28,7 @@ def required_buckets(tier):
            'C19/create_solution/ok', 'C19/create_solution_from/ok', 'C19/rescale/']
     for mag in ('1e-10', '1e-8', '1e-6', '1e-4', '1e-2', '1e0', '1e1'):
         req.append(f'C19/transfer/liquid/{mag}')
-    req += ['C19/recipe/transfer', 'C19/recipe/fill_to', 'C19/recipe/dilute']
+    req += ['C19/recipe/transfer', 'C19/recipe/fill_to', 'C19/recipe/dilute', 'C19/create_solution/container_solvent/']
     return req
 
 
